@@ -14,12 +14,25 @@ Recs == ndJsonDeserialize(IOEnv.TRACE)
 VARIABLES l, pFail
 vars == <<l, pFail>>
 
+Ev(r, name) == SelectSeq(r.events, LAMBDA e : e.ev = name)
+
+\* the steps of the edit as the hooks saw them: one accepted edit whose byte and point coordinates are those of the
+\* splice, one tree.edit, one reparse
+StepsAsModelled(r) ==
+    /\ Len(Ev(r, "accept_edit")) = 1 /\ Len(Ev(r, "tree_edit")) = 1 /\ Len(Ev(r, "reparse")) = 1
+    /\ LET a == Ev(r, "accept_edit")[1] IN
+       /\ <<a.start, a.old_end, a.new_end>> = <<r.edit.pos, r.edit.pos + r.edit.del, r.edit.pos + Len(r.edit.ins)>>
+       /\ a.sp = PositionForOffset(r.cw, a.start) /\ a.oep = PositionForOffset(r.cw, a.old_end)
+       /\ a.nep = PositionForOffset(r.cwAfter, a.new_end)
+
 Reasons(r) ==
     IF r.panic THEN {"edit-panicked"}
     ELSE (IF r.after = Splice(r.before, <<[pos |-> r.edit.pos, del |-> r.edit.del, ins |-> r.edit.ins]>>) THEN {} ELSE {"text-not-spliced"})
-         \cup (IF r.fresh_error \/ r.inc = r.fresh THEN {} ELSE {"tree-differs-from-fresh-parse"})
-
-Ev(r, name) == SelectSeq(r.events, LAMBDA e : e.ev = name)
+         \cup (IF r.fresh_error \/ r.inc = r.fresh THEN {}
+               \* listed finding: the parser library's error recovery leaves an ERROR/MISSING node in the re-used tree
+               \* that a parse from scratch does not produce, although ast-grep performed the edit exactly as modelled
+               ELSE IF r.inc_error /\ StepsAsModelled(r) THEN {"known:incremental-error-recovery"}
+               ELSE {"tree-differs-from-fresh-parse"})
 
 Drift(r) ==
     IF r.panic THEN {}
